@@ -150,9 +150,11 @@ func c20FoldChild(c *Ctx) {
 		runtime.GOMAXPROCS(gmp)
 	}
 	seqT, concT := c20FoldTypes("s", T), c20FoldTypes("c", T)
+	seqD, concD := c20DynTypes("s", T), c20DynTypes("c", T)
 	seq := sha1.New()
 	for g := 0; g < G; g++ {
 		seq.Write([]byte(c20FoldWork(seqT, g, n, seed)))
+		seq.Write([]byte(c20DynWork(seqD, g, n/2, seed, false)))
 	}
 	res := make([]string, G)
 	var wg sync.WaitGroup
@@ -168,7 +170,7 @@ func c20FoldChild(c *Ctx) {
 				}
 			}()
 			<-start
-			res[g] = c20FoldWork(concT, g, n, seed)
+			res[g] = c20FoldWork(concT, g, n, seed) + c20DynWork(concD, g, n/2, seed, true)
 		}()
 	}
 	close(start)
@@ -264,4 +266,74 @@ func c20GenFind(c *Ctx) {
 		name = c20Spell(strings.ToLower(fields[r.Intn(len(fields))]), r.Uint64())
 	}
 	c20FindRun(c, fields, name)
+}
+
+// ---- fields whose tag depends on the VALUE (type any): concurrent encoders of one struct type write different
+// tag ids for the same field; nothing of one goroutine's header may show up in another's stream ----
+
+func c20DynTypes(label string, T int) []reflect.Type {
+	anyT := reflect.TypeOf((*any)(nil)).Elem()
+	out := make([]reflect.Type, T)
+	for k := range out {
+		tag := func(n string) reflect.StructTag {
+			return reflect.StructTag(fmt.Sprintf(`nbt:"%s%d" verif:"%s"`, n, k, label))
+		}
+		fs := []reflect.StructField{
+			{Name: "A", Type: anyT, Tag: tag("alpha")},
+			{Name: "N", Type: reflect.TypeOf(int32(0)), Tag: tag("n")},
+			{Name: "B", Type: anyT, Tag: tag("beta")},
+		}
+		if k%2 == 1 {
+			fs = append(fs, reflect.StructField{Name: "C", Type: anyT, Tag: tag("gamma")})
+		}
+		out[k] = reflect.StructOf(fs)
+	}
+	return out
+}
+
+func c20DynValue(r *rand.Rand, pick int, mark string) any {
+	switch pick % 8 {
+	case 0:
+		return int8(r.Intn(100))
+	case 1:
+		return int32(r.Int31())
+	case 2:
+		return int64(r.Int63())
+	case 3:
+		return mark + strconv.Itoa(r.Intn(1000))
+	case 4:
+		return []byte{byte(r.Intn(256)), 2, 3}
+	case 5:
+		return []int32{int32(r.Intn(9)), 5}
+	case 6:
+		return map[string]int32{mark: int32(r.Intn(9))}
+	default:
+		return []string{mark, "x"}
+	}
+}
+
+func c20DynWork(types []reflect.Type, g, n int, seed int64, yield bool) string {
+	r := rand.New(rand.NewSource(seed*15485863 + int64(g)))
+	yr := rand.New(rand.NewSource(seed*37 + int64(g)))
+	h := sha1.New()
+	mark := fmt.Sprintf("g%d", g)
+	anyT := reflect.TypeOf((*any)(nil)).Elem()
+	for i := 0; i < n; i++ {
+		t := types[(i+g)%len(types)]
+		v := reflect.New(t).Elem()
+		for j := 0; j < t.NumField(); j++ {
+			if t.Field(j).Type == anyT {
+				// the dynamic kind depends on the goroutine and on the iteration
+				v.Field(j).Set(reflect.ValueOf(c20DynValue(r, g+i+3*j+r.Intn(2), mark)))
+			} else {
+				v.Field(j).SetInt(int64(i))
+			}
+		}
+		w := &c20YieldWriter{r: yr, yield: yield && i%2 == 0}
+		if err := nbt.NewEncoder(w).Encode(v.Interface(), ""); err != nil {
+			fmt.Fprintf(h, "E%d", i)
+		}
+		h.Write(w.buf.Bytes())
+	}
+	return hex.EncodeToString(h.Sum(nil)[:8])
 }
